@@ -45,7 +45,7 @@ ASSUMPTIONS = [
 ]
 ALLOWED_AXIOMS: list[str] = []
 
-PRELUDE = "From Snax Require Import Base.Prelude Model.AccIR Model.AccSem Model.C06Overlap Model.C06BlockSide.\n"
+PRELUDE = "From Snax Require Import Base.Prelude Model.AccIR Model.AccSem Model.C06Overlap Model.C06BlockSide Model.C06LoopSide.\n"
 
 ACC_DECL = ""   # the overlap pass does not look at accfg.accelerator ops
 
@@ -402,12 +402,17 @@ def eval_cases(ctx, cases):
         # block rewrites of the real pass outside the side condition of C06_block_overlap_preserves (statistics)
         t += ("Eval vm_compute in failing (fun c : bool * prog * nat * nat * option prog => match c with (lp, b, o, nf, a) => "
               "lp || match a with None => true | Some _ => block_overlap_side_ok b o end end) l1.\n")
+        # loop rewrites of the real pass outside the side conditions of C06_loop_overlap_inside_rule / _preserves
+        t += ("Eval vm_compute in failing (fun c : bool * prog * nat * nat * option prog => match c with (lp, b, o, nf, a) => "
+              "negb lp || match a with None => true | Some _ => loop_inside_side_ok b o nf end end) l1.\n")
+        t += ("Eval vm_compute in failing (fun c : bool * prog * nat * nat * option prog => match c with (lp, b, o, nf, a) => "
+              "negb lp || match a with None => true | Some _ => loop_overlap_side_ok b o nf end end) l1.\n")
         texts.append(t)
         index.append(([k for k, _ in l1], [k for k, _ in l2], [k for k, _ in sc]))
-    res = {"l1": [], "l2_any": [], "l2_viol": [], "scope": [], "broken": [], "side_fail": []}
+    res = {"l1": [], "l2_any": [], "l2_viol": [], "scope": [], "broken": [], "side_fail": [], "loop_in_fail": [], "loop_full_fail": []}
     for (i1, i2, i3), (ok, out) in zip(index, vlib.coq_eval_many("c06", texts, timeout=900, par=8)):
         lists = vlib.parse_all_eval_lists(out)
-        if not ok or len(lists) != 5:
+        if not ok or len(lists) != 7:
             res["broken"].append(out[-1500:])
             continue
         res["l1"] += [i1[k] for k in lists[0]]
@@ -415,6 +420,8 @@ def eval_cases(ctx, cases):
         res["l2_viol"] += [i2[k] for k in lists[2]]
         res["scope"] += [i3[k] for k in lists[3]]
         res["side_fail"] += [i1[k] for k in lists[4]]
+        res["loop_in_fail"] += [i1[k] for k in lists[5]]
+        res["loop_full_fail"] += [i1[k] for k in lists[6]]
     return res
 
 
@@ -450,6 +457,10 @@ def correspondence(ctx):
     nblock = sum(1 for c in cases for r in c.get("recs", []) if r["kind"] == "block" and r["after"] is not None)
     ctx.extra["block_rewrites"] = nblock
     ctx.extra["block_rewrites_inside_side_condition"] = nblock - len(res["side_fail"])
+    nloop = sum(1 for c in cases for r in c.get("recs", []) if r["kind"] == "loop" and r["after"] is not None)
+    ctx.extra["loop_rewrites"] = nloop
+    ctx.extra["loop_rewrites_inside_loop_inside_side_ok"] = nloop - len(res["loop_in_fail"])
+    ctx.extra["loop_rewrites_inside_loop_overlap_side_ok"] = nloop - len(res["loop_full_fail"])
     dis = [{"name": "L1:overlap:cases-file", "detail": b} for b in res["broken"]]
     for c in cases:
         if "error" in c:
